@@ -551,6 +551,8 @@ def _find_fusable(body):
         at = cur['term']
         nm = (callee_name(at) or '').rsplit('::', 1)[-1]
         trn = at['func'].get('trait') or ''
+        if nm == 'zip' and not _second_is_generator(tr, at):
+            continue        # zip of two collections stays an adaptor (sequences are zipped by value, pk/sym.py)
         if nm in FUSABLE and ('Iterator' in trn or 'Itertools' in trn):
             # the next call's target must split on the discriminant of the item option
             nt = body.blocks[t['target']]['term'] if t.get('target') is not None else None
@@ -566,6 +568,19 @@ def _find_fusable(body):
             return {'hdr': hdr, 'loop': lp, 'ref': (refdef[0], refdef[1]), 'it': it_l, 'kind': nm, 'abb': cur['bb'],
                     'exit': arms['0'], 'some': some_t, 'sw': t['target'], 'cfg': cfg}
     return None
+
+
+def _second_is_generator(tr, zip_term):
+    """The second operand of a zip is a lazily generated sequence (iter::successors): only then is the lock-step loop form
+    needed — the generator's state becomes a variable of the loop."""
+    from .lineage import adaptor_chain
+    from .mirutil import callee_name
+    try:
+        src, chain = adaptor_chain(tr, zip_term['args'][1])
+    except Exception:      # noqa: BLE001
+        return False
+    return src.get('o') == 'call' and (callee_name(src['term']) or '').endswith('iter::successors') and \
+        all(c[0] in ('into_iter', 'by_ref') for c in chain)
 
 
 def fuse_once(body):
